@@ -174,6 +174,13 @@ func genCfg(rnd *tr.Rand, focus string) *caseCfg {
 			c.inject = []inject{{name: "wr", index: 0, kind: "epipe", cid: -1}, {name: "epctl-del", index: 0, kind: "ebadf", cid: -1}}
 		case "shutdown-sweep":
 			c.maxConns = 3
+		case "error-then-wake", "error-then-edge":
+			// three connections; the loop is parked in B's OnTraffic while A's peer closes (the close of A will
+			// report a failing EPOLL_CTL_DEL: the poller callback of A returns an error), C's peer sends, and an
+			// AsyncWrite for B is queued: the next batch is [A, C, wake-up] and all of it must be served
+			c.maxConns = 3
+			c.et = c.scenario == "error-then-edge"
+			c.inject = []inject{{name: "epctl-del", index: 0, kind: "ebadf", cid: -1}}
 		case "register-fails":
 			c.maxConns = 3
 			c.inject = []inject{{name: "epctl-add", index: 1, kind: "enomem", cid: -1}}
@@ -761,6 +768,39 @@ func runCase(w *tr.Writer, seed uint64, idx int, focus string) {
 			close(h.release)
 			woken(seq, 500*time.Millisecond)
 			quiet()
+		}
+		if strings.HasPrefix(cfg.scenario, "error-then-") && len(peers) == 3 {
+			pa, pb, pc := peers[0], peers[1], peers[2]
+			seq := rec.seq()
+			n, _ := pb.conn.Write([]byte("park"))
+			pb.sent = append(pb.sent, []byte("park")[:n]...)
+			select {
+			case <-h.inTraffic:
+			case <-time.After(time.Second):
+			}
+			ending(pa)
+			pa.conn.Close()
+			pa.closed = true
+			time.Sleep(5 * time.Millisecond)
+			data := rnd.Bytes(700)
+			n, _ = pc.conn.Write(data)
+			pc.sent = append(pc.sent, data[:n]...)
+			time.Sleep(5 * time.Millisecond)
+			if ci := h.byCid(pb.cid); ci != nil && ci.c != nil {
+				late := []byte("after-the-failing-close")
+				h.op(ci, tr.L("async", "write", tr.I(ci.mcid), tr.X(late), "1"))
+				ci.c.AsyncWrite(late, h.acb("write", ci, true, late))
+			}
+			time.Sleep(5 * time.Millisecond)
+			close(h.release)
+			woken(seq, 500*time.Millisecond)
+			quiet()
+			for round := 0; round < 20; round++ {
+				if recvSome(pb, 1<<20, 3*time.Millisecond)+recvSome(pc, 1<<20, 3*time.Millisecond) == 0 && round > 3 {
+					break
+				}
+				quiet()
+			}
 		}
 		if cfg.scenario == "readfrom-after-spill" && len(peers) == 1 {
 			p := peers[0]
